@@ -641,3 +641,27 @@ package server
 //@ assert at call ProcessWrite#0: b == request && commitOffset == newOffset
 //@ assert at call OnComplete#0: t == wr
 //@ modifies *
+
+// ---------------------------------------------------------------- re-arming sessions after a leader change (C14)
+
+//@ func leaderController.ListBlock
+//@ trusted
+//@ modifies nothing
+
+//@ func KeyToId
+//@ trusted
+//@ modifies nothing
+
+// readSessions: every stored session that can be decoded gets its own metadata object
+// (its own timeout), never one shared with another session.
+//
+//@ func sessionManager.readSessions(sm) (result, err)
+//@ property C14
+//@ requires sm.leaderController != nil && sm.leaderController.db != nil && sm.log != nil
+//@ loop 0 modifies mapof(result), fresh
+//@ loop 0 invariant result != nil && fresh(result)
+//@ loop 0 invariant forall a SessionId :: inmap(result, a) ==> result[a] != nil && fresh(result[a])
+//@ loop 0 invariant forall a SessionId, b SessionId :: inmap(result, a) && inmap(result, b) && a != b ==> result[a] != result[b]
+//@ ensures err == nil ==> result != nil && forall a SessionId :: inmap(result, a) ==> result[a] != nil
+//@ ensures err == nil ==> forall a SessionId, b SessionId :: inmap(result, a) && inmap(result, b) && a != b ==> result[a] != result[b]
+//@ modifies nothing
